@@ -253,7 +253,10 @@ Fixpoint pars_at (d : nat) (l : list node) : res (list par) :=
 Definition count_runs (v : env) (s : cst) : res nat :=
   ps <- pars_at 4%nat (c_tree s) ;;
   a <- mapM (par_run_strings (html_on v)) ps ;;
-  b <- mapM (par_run_strings (html_on v)) (rev (c_open s)) ;;
+  (* the closing tag of an open html-styled paragraph is not due yet *)
+  b <- mapM (fun p => rs <- par_run_strings (html_on v) p ;;
+                      Ok (match p_hstyle p with [] => rs | _ => removelast rs end))
+            (rev (c_open s)) ;;
   Ok (length (concat a) + length (concat b))%nat.
 
 Fixpoint ranges_set (k : str) (v : nat * nat) (d : list (str * (nat * nat))) :=
@@ -265,9 +268,12 @@ Fixpoint ranges_set (k : str) (v : nat * nat) (d : list (str * (nat * nat))) :=
 Definition start_comment_range (v : env) (id : str) (s : cst) : res cst :=
   n <- count_runs v s ;; Ok (set_ranges (ranges_set id (n, n) (c_ranges s)) s).
 Definition end_comment_range (v : env) (id : str) (s : cst) : res cst :=
-  n <- count_runs v s ;;
-  '(b, _) <- of_opt KeyError (dict_get id (c_ranges s)) ;;
-  Ok (set_ranges (ranges_set id (b, n) (c_ranges s)) s).
+  match dict_get id (c_ranges s) with
+  | None => Ok s                     (* end marker without a start in this collector *)
+  | Some (b, _) =>
+      n <- count_runs v s ;;
+      Ok (set_ranges (ranges_set id (b, n) (c_ranges s)) s)
+  end.
 
 (* ---------- table cells ---------- *)
 Definition new_empty_par : par :=
@@ -310,6 +316,14 @@ Definition upd_row (root : list node) (ti ri : nat) (f : list node -> res (list 
 
 Definition s_vMerge : str := [118; 77; 101; 114; 103; 101].
 Definition s_gridSpan : str := [103; 114; 105; 100; 83; 112; 97; 110].
+Definition s_continue : str := [99; 111; 110; 116; 105; 110; 117; 101].
+(* pr.get("vMerge", "Not None") in (None, "continue") *)
+Definition is_continuation (pr : list (str * option str)) : bool :=
+  match dict_get s_vMerge pr with
+  | Some None => true
+  | Some (Some x) => str_eqb x s_continue
+  | None => false
+  end.
 
 Definition close_table_cell (v : env) (e : einfo) (ks : list anode) (s : cst) : res cst :=
   pr <- gather_Pr e ks ;;
@@ -325,9 +339,7 @@ Definition close_table_cell (v : env) (e : einfo) (ks : list anode) (s : cst) : 
   let ti := (length root - 1)%nat in
   let ri := (length rows0 - 1)%nat in
   (* vertical merge *)
-  s1 <- (if (env_dup v
-             && match dict_get s_vMerge pr with Some None => true | _ => false end
-             && Nat.ltb 1%nat (length rows0))%bool
+  s1 <- (if (env_dup v && is_continuation pr && Nat.ltb 1%nat (length rows0))%bool
          then
            sa <- set_caret (Some 3%nat) None s ;;
            t <- of_opt IndexError (py_get (c_tree sa) ti) ;;
@@ -338,13 +350,17 @@ Definition close_table_cell (v : env) (e : einfo) (ks : list anode) (s : cst) : 
                    end ;;
            cells <- get_row (c_tree sa) ti ri ;;
            let tc_idx := (Z.of_nat (length cells) - 1)%Z in
-           src <- of_opt IndexError (py_nth (rev prev) tc_idx) ;;
-           root' <- upd_row (c_tree sa) ti ri
-                      (fun cs => match cs with
-                                 | [] => Err IndexError
-                                 | _ :: r => Ok (copy_node src :: r)
-                                 end) ;;
-           Ok (set_tree root' sa)
+           (* if 0 <= tc_idx < len(prev_tr): this_tr[-1] = deepcopy(prev_tr[tc_idx]) *)
+           match cells, py_nth (rev prev) tc_idx with
+           | _ :: _, Some src =>
+               root' <- upd_row (c_tree sa) ti ri
+                          (fun cs => match cs with
+                                     | [] => Err IndexError
+                                     | _ :: r => Ok (copy_node src :: r)
+                                     end) ;;
+               Ok (set_tree root' sa)
+           | _, _ => Ok sa
+           end
          else Ok s) ;;
   (* horizontal merge *)
   span <- match dict_get s_gridSpan pr with
